@@ -32,6 +32,15 @@ Definition start_line (l : line) : list line :=
        obs "closes" [AInt (zlen (cls s))];
        obs "left" [AInt (zlen (leaked s))];
        obs "strayclose" [AInt (Z.of_nat (dup_closes (cls s)))]]
+  (* cstart <loops> <failing call | none> <index>: Client.Start (and Client.Stop when it succeeded) *)
+  | ("cstart", [nl; call; idx]) =>
+      let '(s, o) := Start.run_client (nat_of nl) (fault_of call idx) in
+      [obs "ret" [ASym (match o with Start.Failed => "failed" | Start.Started => "started" end)];
+       obs "created" [AInt (Z.of_nat (count_kind KSock s)); AInt (Z.of_nat (count_kind KEpoll s));
+                      AInt (Z.of_nat (count_kind KEfd s))];
+       obs "closes" [AInt (zlen (cls s))];
+       obs "left" [AInt (zlen (leaked s))];
+       obs "strayclose" [AInt (Z.of_nat (dup_closes (cls s)))]]
   | _ => []
   end.
 
